@@ -165,7 +165,24 @@ func judgeMapLoop(w *World, fn *ssa.Function, rg *ssa.Range) (int, string) {
 								continue
 							}
 						}
-						if _, isPhi := base.(*ssa.Phi); isPhi {
+						if ph, isPhi := base.(*ssa.Phi); isPhi {
+							// an accumulator of an inner loop that starts afresh in every iteration of the
+							// map loop (all its entry values are produced inside the body) is per key
+							if ph.Block() != header && body[ph.Block()] {
+								fresh := true
+								for _, e := range ph.Edges {
+									ei, isInstr := e.(ssa.Instruction)
+									if _, isConst := e.(*ssa.Const); isConst {
+										continue
+									}
+									if !isInstr || ei.Block() == nil || !body[ei.Block()] || ei.Block() == header {
+										fresh = false
+									}
+								}
+								if fresh {
+									continue
+								}
+							}
 							effects++
 							// accumulator ordered by iteration: fine only if it reaches error text only
 							if !phiFlowsOnlyToErrors(base) {
